@@ -87,6 +87,9 @@ def accept_functions(applier) -> Dict[str, Tuple[Func, str, str]]:
     return out
 
 
+FILTER_EXACT = ("unit_name", "unit_path", "line_num")
+
+
 def run(model: RepoModel, rep, tier: str):
     rep.not_decided = ("existence of a real data dependence for each reported flow; monotonicity in the rule set (a relation between "
                        "runs); correctness of the state-flow graph the tags are propagated over")
@@ -347,6 +350,24 @@ def run(model: RepoModel, rep, tier: str):
                 rep.violation("C11.R4", key, TA, f.node.lineno,
                               f"shipped {coll[4:]} rules of kind {kind} restrict by `{fld}`, but {name} never tests rule.{fld}: the rule "
                               f"matches statements in files/lines it excludes")
+    # a filter restricts by EQUALITY: every matcher on the pinned tree rejects a rule with `rule.<filter> != <value of the statement>`.
+    # A containment test (`not in`) lets a rule written for `a.py` select statements of `data.py`, an ordering test a range of lines.
+    for name, (f, coll, kind) in sorted(acc.items()):
+        rvs = rule_vars(f.node)
+        for cmp_ in walk_no_nested(f.node):
+            if not (isinstance(cmp_, ast.Compare) and len(cmp_.ops) == 1):
+                continue
+            sides = [cmp_.left, cmp_.comparators[0]]
+            flds = [x.attr for x in sides if isinstance(x, ast.Attribute) and isinstance(x.value, ast.Name) and x.value.id in rvs and x.attr in FILTER_EXACT]
+            if not flds:
+                continue
+            key = f"{TA}::TaintRuleApplier.{name}::rule.{flds[0]} restricts by equality"
+            if isinstance(cmp_.ops[0], (ast.Eq, ast.NotEq)):
+                rep.holds("C11.R4", key, TA, cmp_.lineno, f"`{norm(cmp_)}`")
+            else:
+                rep.violation("C11.R4", key, TA, cmp_.lineno,
+                              f"{name} compares the filter with `{norm(cmp_)}`: not an equality, unlike every sibling matcher -- a rule restricted to "
+                              f"one file or line also selects statements of other files or lines (a rule for `a.py` matches in `data.py`)")
     # language restriction
     key = f"{TA}::rule.lang consulted"
     lang_used = any(isinstance(n, ast.Attribute) and n.attr == "lang" and isinstance(n.value, ast.Name) and n.value.id in rule_vars(fn_.node)
@@ -424,6 +445,11 @@ def run(model: RepoModel, rep, tier: str):
     # sink argument that only ever holds a constant
     from .c07 import _r4_keyword_order
     _r4_keyword_order(model, rep, "C11.R6")
+    from ..generic2 import check_index_partitions
+    rep.rule("C11.R7", "argument binding covers every position exactly once: the positional loop over [0, common_len), the loop over the remaining "
+                        "positional parameters and the tail slice of the remaining positional arguments continue exactly where the first loop stopped, "
+                        "so an argument is bound to the wrong parameter position", 2)
+    check_index_partitions(model, rep, "C11.R7", ["core/stmt_states.py"])
 
 
 # ---------------------------------------------------------------- self-test mutants
